@@ -206,6 +206,12 @@ class VerusUnit:
             within = None
             if it.get('within_impl'):
                 within = rs.find_impl_span(src, it['within_impl'])
+            elif it.get('before'):
+                # a module-level item that shares its name with a method: only the text before the given anchor is searched
+                bm = re.search(it['before'], rs.mask(src))
+                if not bm:
+                    raise ScanError('anchor %r not found for %s' % (it['before'], it['name']))
+                within = (0, bm.start())
             found = rs.find_item(src, it['kind'], it['name'], within)
             text = found['text']
             rec = dict(name=it['name'], kind=it['kind'], source=path, src_line=rs.line_of(src, found['start']),
